@@ -145,3 +145,946 @@ theorem cacheOK_setExpanded {full : List Tok → List Tok} : ∀ {args : List Ma
 def purePP (full : List Tok → List Tok) : PreExpand := fun st ts => .ok (full ts, st)
 
 end ChibiVerif.PP
+
+/-! ## the simulation: `subst` of the model against `pasteAll ∘ substItems ∘ parseBody` of the specification -/
+
+namespace ChibiVerif.PP
+open ChibiVerif.Spec.PPSpec
+
+def spell1 (t : Tok) : Kind × String := (t.kind, t.text)
+def spell (ts : List Tok) : List (Kind × String) := ts.map spell1
+
+def PmTop : List Elem → Bool
+  | .pm :: _ => true
+  | _ => false
+
+theorem pasteAll_toks (lx : String → LexOne) : ∀ (ts : List Tok) (more done : List Elem),
+    pasteAll lx (ts.map Elem.tok ++ more) done = pasteAll lx more ((ts.map Elem.tok).reverse ++ done) := by
+  intro ts
+  induction ts with
+  | nil => intro more done; rfl
+  | cons t r ih =>
+    intro more done
+    simp only [List.map_cons, List.cons_append, pasteAll, List.reverse_cons, List.append_assoc]
+    rw [ih]; rfl
+
+theorem pasteAll_pm (lx : String → LexOne) (more done : List Elem) :
+    pasteAll lx (.pm :: more) done = pasteAll lx more (.pm :: done) := by simp [pasteAll]
+
+theorem pasteAll_op_ok (lx : String → LexOne) {r : Elem} (more : List Elem) {l : Elem} (done : List Elem) {x : Elem}
+    (h : combine lx l r = .ok x) : pasteAll lx (.op :: r :: more) (l :: done) = pasteAll lx more (x :: done) := by
+  simp [pasteAll, h]
+
+theorem pasteAll_op_err (lx : String → LexOne) {r : Elem} (more : List Elem) {l : Elem} (done : List Elem) {e : Err}
+    (h : combine lx l r = .error e) : pasteAll lx (.op :: r :: more) (l :: done) = .error e := by
+  simp [pasteAll, h]
+
+theorem dropPlacemarkers_reverse (es : List Elem) : dropPlacemarkers es.reverse = (dropPlacemarkers es).reverse := by
+  simp [dropPlacemarkers, List.filterMap_reverse]
+
+theorem dropPlacemarkers_toks (ts : List Tok) : dropPlacemarkers (ts.map Elem.tok) = ts := by
+  induction ts with
+  | nil => rfl
+  | cons t r ih => simpa [dropPlacemarkers] using ih
+
+theorem dropPlacemarkers_append (a b : List Elem) : dropPlacemarkers (a ++ b) = dropPlacemarkers a ++ dropPlacemarkers b := by
+  simp [dropPlacemarkers, List.filterMap_append]
+
+end ChibiVerif.PP
+
+namespace ChibiVerif.PP
+open ChibiVerif.Spec.PPSpec
+
+/-! region -/
+
+def badHead (isFn : Bool) (args : List MacroArg) : List Tok → Bool
+  | [] => false
+  | t :: r =>
+    (t.text == "," && textIs r.head? "##" && ((findArg args (r.drop 1).head?).filter (·.isVa)).isSome) ||
+    (t.text == "__VA_OPT__" && textIs r.head? "(") ||
+    (t.text == "##" && (textIs r.head? "##" || (isFn && textIs r.head? "#")))
+
+def anyBad (isFn : Bool) (args : List MacroArg) : List Tok → Bool
+  | [] => false
+  | t :: r => badHead isFn args (t :: r) || anyBad isFn args r
+
+theorem findArg_core {args args0 : List MacroArg} (h : args.map core = args0.map core) (t : Option Tok) :
+    (findArg args t).map core = (findArg args0 t).map core := by
+  cases t with
+  | none => rfl
+  | some t =>
+    simp only [findArg]
+    rw [← find_core, ← find_core, h]
+
+theorem findArg_some_core {args args0 : List MacroArg} (h : args.map core = args0.map core) {t : Option Tok} {a : MacroArg}
+    (hf : findArg args t = some a) : ∃ a0, findArg args0 t = some a0 ∧ a0.name = a.name ∧ a0.isVa = a.isVa ∧ a0.toks = a.toks := by
+  have := findArg_core h t
+  rw [hf] at this
+  cases h0 : findArg args0 t with
+  | none => rw [h0] at this; simp at this
+  | some a0 =>
+    rw [h0] at this
+    simp only [Option.map_some, Option.some.injEq, core, Prod.mk.injEq] at this
+    exact ⟨a0, rfl, this.1.symm, this.2.1.symm, this.2.2.symm⟩
+
+theorem findArg_none_core {args args0 : List MacroArg} (h : args.map core = args0.map core) {t : Option Tok}
+    (hf : findArg args t = none) : findArg args0 t = none := by
+  have := findArg_core h t
+  rw [hf] at this
+  cases h0 : findArg args0 t with
+  | none => rfl
+  | some a0 => rw [h0] at this; simp at this
+
+theorem isParam_iff (args0 : List MacroArg) (t : Tok) : isParam args0 t = (findArg args0 (some t)).isSome := by
+  simp only [isParam, findArg]
+  induction args0 with
+  | nil => rfl
+  | cons a r ih =>
+    simp only [List.any_cons, List.find?_cons]
+    by_cases h : (a.name == t.text) = true
+    · simp [h]
+    · have h' : (a.name == t.text) = false := by simpa using h
+      simp [h', ih]
+
+theorem argToks_of_findArg {args0 : List MacroArg} {t : Tok} {a0 : MacroArg} (h : findArg args0 (some t) = some a0) :
+    argToks args0 t.text = a0.toks := by
+  simp only [findArg] at h
+  simp [argToks, h]
+
+theorem isVaParam_eq (args0 : List MacroArg) (v : Tok) :
+    isVaParam args0 v = ((findArg args0 (some v)).filter (·.isVa)).isSome := by
+  simp only [isVaParam, findArg]
+  cases args0.find? (fun a => a.name == v.text) with
+  | none => rfl
+  | some a => cases h : a.isVa <;> simp [Option.filter, h]
+
+end ChibiVerif.PP
+
+namespace ChibiVerif.PP
+open ChibiVerif.Spec.PPSpec
+
+theorem spell_reverse (ts : List Tok) : spell ts.reverse = (spell ts).reverse := by simp [spell]
+theorem spell_append (a b : List Tok) : spell (a ++ b) = spell a ++ spell b := by simp [spell]
+theorem spell_setHeadFlags (ts : List Tok) (b s : Bool) : spell (setHeadFlags ts b s) = spell ts := by
+  cases ts <;> simp [setHeadFlags, spell, spell1]
+
+theorem anyBad_tail {isFn : Bool} {args : List MacroArg} {t : Tok} {r : List Tok}
+    (h : anyBad isFn args (t :: r) = false) : badHead isFn args (t :: r) = false ∧ anyBad isFn args r = false := by
+  simpa [anyBad, Bool.or_eq_false_iff] using h
+
+theorem chain_tail {args : List MacroArg} {t : Tok} {r : List Tok}
+    (h : hasPlacemarkerChain args (t :: r) = false) : hasPlacemarkerChain args r = false := by
+  simp only [hasPlacemarkerChain, Bool.or_eq_false_iff] at h; exact h.2
+
+theorem unsafe_tail {args : List MacroArg} {t : Tok} {r : List Tok}
+    (h : hasUnsafeStringize args (t :: r) = false) : hasUnsafeStringize args r = false := by
+  simp only [hasUnsafeStringize, Bool.or_eq_false_iff] at h; exact h.2
+
+/-- same spelling of the left operand: `paste` behaves the same -/
+theorem paste_congr (lx : String → LexOne) {a a' b : Tok} (h : spell1 a = spell1 a') :
+    (∀ p, paste lx a b = .ok p → ∃ p', paste lx a' b = .ok p' ∧ spell1 p' = spell1 p) := by
+  intro p hp
+  simp only [spell1, Prod.mk.injEq] at h
+  unfold paste at hp ⊢
+  dsimp only at hp ⊢
+  rw [← h.2]
+  split at hp
+  · rename_i k hk
+    simp only [Except.ok.injEq] at hp
+    subst hp
+    simp [hk, spell1]
+  all_goals simp at hp
+
+theorem substItems_cons_ok {args : List MacroArg} {fa : String → List Tok} {inner : List Tok → Except Err (List Tok)}
+    {p : Bool} {it : Item} {rest : List Item} {elems : List Elem}
+    (h : substItems args fa inner p (it :: rest) = .ok elems) (hv : ∀ c, it ≠ .vaopt c) :
+    ∃ e1 e2, elems = e1 ++ e2 ∧ substItems args fa inner (isOp it) rest = .ok e2 ∧
+      e1 = (match it with
+        | .lit t => [Elem.tok t]
+        | .op => [Elem.op]
+        | .strz hh a => [Elem.tok (stringizeSpec hh (argToks args a))]
+        | .par q a =>
+          if p || (rest.head?.map isOp).getD false then
+            rawOrPlacemarker (if (rest.head?.map isOp).getD false then withSpacingOf q (argToks args a) else argToks args a)
+          else (withSpacingOf q (fa a)).map Elem.tok
+        | .gnuComma c a => if (argToks args a).isEmpty then [] else Elem.tok c :: (argToks args a).map Elem.tok
+        | .vaopt _ => []) := by
+  unfold substItems at h
+  cases it with
+  | vaopt c => exact absurd rfl (hv c)
+  | lit t =>
+    simp only [Except.map] at h
+    split at h
+    · simp at h
+    · rename_i e2 he2; simp only [Except.ok.injEq] at h; exact ⟨_, e2, h.symm, he2, rfl⟩
+  | op =>
+    simp only [Except.map] at h
+    split at h
+    · simp at h
+    · rename_i e2 he2; simp only [Except.ok.injEq] at h; exact ⟨_, e2, h.symm, he2, rfl⟩
+  | strz hh a =>
+    simp only [Except.map] at h
+    split at h
+    · simp at h
+    · rename_i e2 he2; simp only [Except.ok.injEq] at h; exact ⟨_, e2, h.symm, he2, rfl⟩
+  | gnuComma c a =>
+    simp only [Except.map] at h
+    split at h
+    · simp at h
+    · rename_i e2 he2; simp only [Except.ok.injEq] at h; exact ⟨_, e2, h.symm, he2, rfl⟩
+  | par q a =>
+    simp only [Except.map] at h
+    by_cases hc : (p || (rest.head?.map isOp).getD false) = true
+    · simp only [hc, if_true] at h ⊢
+      split at h
+      · simp at h
+      · rename_i e2 he2; simp only [Except.ok.injEq] at h; exact ⟨_, e2, h.symm, he2, rfl⟩
+    · simp only [hc, Bool.false_eq_true, if_false] at h ⊢
+      split at h
+      · simp at h
+      · rename_i e2 he2; simp only [Except.ok.injEq] at h; exact ⟨_, e2, h.symm, he2, rfl⟩
+
+end ChibiVerif.PP
+
+namespace ChibiVerif.PP
+open ChibiVerif.Spec.PPSpec
+
+theorem gnuCond_eq (args : List MacroArg) (r : List Tok) :
+    (((r.drop 1).head?.map (isVaParam args)).getD false) = ((findArg args (r.drop 1).head?).filter (·.isVa)).isSome := by
+  cases (r.drop 1).head? with
+  | none => simp [findArg]
+  | some v => simp [isVaParam_eq]
+
+/-- the four ways `parseBody` can step under the region hypotheses -/
+theorem parse_step {isFn : Bool} {args : List MacroArg} {n : Nat} {tok : Tok} {rest : List Tok} {items : List Item}
+    (hbad : badHead isFn args (tok :: rest) = false)
+    (h : parseBody isFn args (n + 1) (tok :: rest) = .ok items) :
+    (tok.text = "#" ∧ isFn = true ∧ ∃ p rest' items', rest = p :: rest' ∧ isParam args p = true ∧
+        items = .strz tok p.text :: items' ∧ parseBody isFn args n rest' = .ok items') ∨
+    (¬(tok.text = "#" ∧ isFn = true) ∧ tok.text = "##" ∧ ∃ items', items = .op :: items' ∧ parseBody isFn args n rest = .ok items') ∨
+    (¬(tok.text = "#" ∧ isFn = true) ∧ tok.text ≠ "##" ∧ isParam args tok = true ∧
+        ∃ items', items = .par tok tok.text :: items' ∧ parseBody isFn args n rest = .ok items') ∨
+    (¬(tok.text = "#" ∧ isFn = true) ∧ tok.text ≠ "##" ∧ isParam args tok = false ∧
+        ∃ items', items = .lit tok :: items' ∧ parseBody isFn args n rest = .ok items') := by
+  simp only [badHead, Bool.or_eq_false_iff] at hbad
+  obtain ⟨⟨hg, hv⟩, _⟩ := hbad
+  simp only [parseBody] at h
+  by_cases h1 : (tok.text == "#" && isFn) = true
+  · left
+    simp only [h1, if_true] at h
+    simp only [Bool.and_eq_true, beq_iff_eq] at h1
+    refine ⟨h1.1, h1.2, ?_⟩
+    cases rest with
+    | nil => simp at h
+    | cons p rest' =>
+      simp only at h
+      split at h
+      · rename_i hp
+        simp only [Except.map] at h
+        split at h
+        · simp at h
+        · rename_i items' hi
+          simp only [Except.ok.injEq] at h
+          exact ⟨p, rest', items', rfl, hp, h.symm, hi⟩
+      · simp at h
+  · right
+    have h1' : ¬(tok.text = "#" ∧ isFn = true) := by simpa using h1
+    simp only [h1, Bool.false_eq_true, if_false] at h
+    have hg' : (tok.text == "," && textIs rest.head? "##" && ((rest.drop 1).head?.map (isVaParam args)).getD false) = false := by
+      rw [gnuCond_eq]; exact hg
+    simp only [hg', Bool.false_eq_true, if_false] at h
+    by_cases h3 : (tok.text == "##") = true
+    · left
+      simp only [h3, if_true, Except.map] at h
+      split at h
+      · simp at h
+      · rename_i items' hi
+        simp only [Except.ok.injEq] at h
+        exact ⟨h1', by simpa using h3, items', h.symm, hi⟩
+    · right
+      have h3' : tok.text ≠ "##" := by simpa using h3
+      simp only [h3, Bool.false_eq_true, if_false] at h
+      by_cases h4 : isParam args tok = true
+      · left
+        simp only [h4, if_true, Except.map] at h
+        split at h
+        · simp at h
+        · rename_i items' hi
+          simp only [Except.ok.injEq] at h
+          exact ⟨h1', h3', h4, items', h.symm, hi⟩
+      · right
+        have h4' : isParam args tok = false := by simpa using h4
+        simp only [h4', Bool.false_eq_true, if_false, hv, Except.map] at h
+        split at h
+        · simp at h
+        · rename_i items' hi
+          simp only [Except.ok.injEq] at h
+          exact ⟨h1', h3', h4', items', h.symm, hi⟩
+
+end ChibiVerif.PP
+
+namespace ChibiVerif.PP
+open ChibiVerif.Spec.PPSpec
+
+theorem findArg_of_core_symm {args args0 : List MacroArg} (h : args.map core = args0.map core) {t : Option Tok} {a0 : MacroArg}
+    (hf : findArg args0 t = some a0) : ∃ a, findArg args t = some a ∧ a.name = a0.name ∧ a.isVa = a0.isVa ∧ a.toks = a0.toks :=
+  findArg_some_core h.symm hf
+
+theorem spell_cons (t : Tok) (ts : List Tok) : spell (t :: ts) = spell1 t :: spell ts := rfl
+
+theorem dropPM_cons_tok (t : Tok) (es : List Elem) : dropPlacemarkers (.tok t :: es) = t :: dropPlacemarkers es := by
+  simp [dropPlacemarkers]
+theorem dropPM_cons_pm (es : List Elem) : dropPlacemarkers (.pm :: es) = dropPlacemarkers es := by
+  simp [dropPlacemarkers]
+
+/-- the head of `done` when it is not a placemarker and `acc` is not empty -/
+theorem top_of_R {acc : List Tok} {done : List Elem} {cur : Tok} {acc' : List Tok}
+    (hR : spell (cur :: acc') = spell (dropPlacemarkers done)) (hpm : PmTop done = false) (hop : ∀ d', done ≠ .op :: d') :
+    ∃ lt done', done = .tok lt :: done' ∧ spell1 lt = spell1 cur ∧ spell acc' = spell (dropPlacemarkers done') := by
+  cases done with
+  | nil => simp [spell, dropPlacemarkers] at hR
+  | cons d done' =>
+    cases d with
+    | pm => simp [PmTop] at hpm
+    | op => exact absurd rfl (hop done')
+    | tok lt =>
+      rw [dropPM_cons_tok, spell_cons, spell_cons] at hR
+      simp only [List.cons.injEq] at hR
+      exact ⟨lt, done', rfl, hR.1.symm, hR.2⟩
+
+/-- `done` never holds a `##` -/
+def NoOp (done : List Elem) : Prop := ∀ e ∈ done, e ≠ Elem.op
+
+end ChibiVerif.PP
+
+namespace ChibiVerif.PP
+open ChibiVerif.Spec.PPSpec
+
+theorem paste_congr2 (lx : String → LexOne) {a a' b b' : Tok} (h : spell1 a = spell1 a') (hb : b.text = b'.text) :
+    (∀ p, paste lx a b = .ok p → ∃ p', paste lx a' b' = .ok p' ∧ spell1 p' = spell1 p) := by
+  intro p hp
+  simp only [spell1, Prod.mk.injEq] at h
+  unfold paste at hp ⊢
+  dsimp only at hp ⊢
+  rw [← h.2, ← hb]
+  split at hp
+  · rename_i k hk
+    simp only [Except.ok.injEq] at hp
+    subst hp
+    simp [hk, spell1]
+  all_goals simp at hp
+
+theorem dropPM_push (ts : List Tok) (done : List Elem) :
+    dropPlacemarkers ((ts.map Elem.tok).reverse ++ done) = ts.reverse ++ dropPlacemarkers done := by
+  rw [dropPlacemarkers_append, ← List.map_reverse, dropPlacemarkers_toks]
+
+theorem spell_withSpacingOf (p : Tok) (ts : List Tok) : spell (withSpacingOf p ts) = spell ts := by
+  simp [withSpacingOf, spell_setHeadFlags]
+
+theorem withSpacingOf_nil_iff (p : Tok) (ts : List Tok) : withSpacingOf p ts = [] ↔ ts = [] := by
+  cases ts <;> simp [withSpacingOf, setHeadFlags]
+
+/-- the next item is `##` exactly when the next token is -/
+theorem parse_head_isOp {isFn : Bool} {args : List MacroArg} {n : Nat} {rest : List Tok} {items : List Item}
+    (hlen : rest.length < n) (hbad : anyBad isFn args rest = false) (h : parseBody isFn args n rest = .ok items) :
+    (items.head?.map isOp).getD false = textIs rest.head? "##" := by
+  cases rest with
+  | nil =>
+    cases n <;> simp [parseBody] at h <;> subst h <;> simp [textIs]
+  | cons t r =>
+    obtain ⟨k, rfl⟩ : ∃ k, n = k + 1 := ⟨n - 1, by simp only [List.length_cons] at hlen; omega⟩
+    rcases parse_step (anyBad_tail hbad).1 h with
+      ⟨h1, _, p, rest', items', _, _, rfl, _⟩ | ⟨_, h2, items', rfl, _⟩ | ⟨_, h2, _, items', rfl, _⟩ | ⟨_, h2, _, items', rfl, _⟩
+    · simp [isOp, textIs, h1]
+    · simp [isOp, textIs, h2]
+    · simp [isOp, textIs, h2]
+    · simp [isOp, textIs, h2]
+
+/-- the item to the right of a `##`, under the region hypotheses: a parameter (raw argument or placemarker) or a
+    plain token -/
+theorem rhs_step {isFn : Bool} {args0 : List MacroArg} {fa : String → List Tok} {inner : List Tok → Except Err (List Tok)}
+    {n : Nat} {hh rhs : Tok} {rest3 : List Tok} {items1 : List Item} {elems1 : List Elem}
+    (hhh : hh.text = "##")
+    (hb1 : badHead isFn args0 (hh :: rhs :: rest3) = false)
+    (hb2 : anyBad isFn args0 (rhs :: rest3) = false)
+    (hparse : parseBody isFn args0 (n + 1) (rhs :: rest3) = .ok items1)
+    (hsub : substItems args0 fa inner true items1 = .ok elems1) :
+    ∃ items3 e3, parseBody isFn args0 n rest3 = .ok items3 ∧ substItems args0 fa inner false items3 = .ok e3 ∧
+      ((∃ a2, findArg args0 (some rhs) = some a2 ∧ ∃ W, spell W = spell a2.toks ∧ (W = [] ↔ a2.toks = []) ∧
+          elems1 = rawOrPlacemarker W ++ e3)
+       ∨ (findArg args0 (some rhs) = none ∧ elems1 = [Elem.tok rhs] ++ e3)) := by
+  simp only [badHead, Bool.or_eq_false_iff, hhh, beq_self_eq_true, Bool.true_and, List.head?_cons, textIs] at hb1
+  obtain ⟨_, hx1, hx2⟩ := hb1
+  rcases parse_step (anyBad_tail hb2).1 hparse with
+    ⟨h1, hfn, p, rest', items', _, _, _, _⟩ | ⟨_, h2, items', _, _⟩ | ⟨_, _, hip, items3, rfl, hp3⟩ | ⟨_, _, hip, items3, rfl, hp3⟩
+  · simp [h1, hfn] at hx2
+  · simp [h2] at hx1
+  · obtain ⟨e1, e3, rfl, hsub3, he1⟩ := substItems_cons_ok hsub (by intro c h; cases h)
+    simp only [Bool.true_or, if_true] at he1
+    have hsome : (findArg args0 (some rhs)).isSome = true := by rw [← isParam_iff]; exact hip
+    obtain ⟨a2, ha2⟩ := Option.isSome_iff_exists.1 hsome
+    refine ⟨items3, e3, hp3, hsub3, Or.inl ⟨a2, ha2, ?_⟩⟩
+    rw [argToks_of_findArg ha2] at he1
+    by_cases hn : (items3.head?.map isOp).getD false = true
+    · simp only [hn, if_true] at he1
+      exact ⟨_, spell_withSpacingOf _ _, withSpacingOf_nil_iff _ _, by rw [he1]⟩
+    · simp only [hn, Bool.false_eq_true, if_false] at he1
+      exact ⟨_, rfl, Iff.rfl, by rw [he1]⟩
+  · obtain ⟨e1, e3, rfl, hsub3, he1⟩ := substItems_cons_ok hsub (by intro c h; cases h)
+    simp only at he1
+    have : findArg args0 (some rhs) = none := by
+      have := isParam_iff args0 rhs
+      rw [hip] at this
+      cases h : findArg args0 (some rhs) with
+      | none => rfl
+      | some a => rw [h] at this; simp at this
+    exact ⟨items3, e3, hp3, hsub3, Or.inr ⟨this, by rw [he1]⟩⟩
+
+theorem pasteAll_op_last (lx : String → LexOne) (d es : List Elem) : pasteAll lx [.op] d ≠ .ok es := by
+  cases d <;> simp [pasteAll]
+
+theorem parse_op_cons {isFn : Bool} {args : List MacroArg} {k : Nat} {hh : Tok} {r : List Tok} {items : List Item}
+    (hhh : hh.text = "##") (hb : badHead isFn args (hh :: r) = false)
+    (h : parseBody isFn args (k + 1) (hh :: r) = .ok items) :
+    ∃ items2, items = .op :: items2 ∧ parseBody isFn args k r = .ok items2 := by
+  rcases parse_step hb h with ⟨h1, _, _⟩ | ⟨_, _, items2, rfl, hp⟩ | ⟨_, h2, _⟩ | ⟨_, h2, _⟩
+  · rw [hhh] at h1; simp at h1
+  · exact ⟨items2, rfl, hp⟩
+  · exact absurd hhh h2
+  · exact absurd hhh h2
+
+theorem substItems_op_cons {args : List MacroArg} {fa : String → List Tok} {inner : List Tok → Except Err (List Tok)}
+    {p : Bool} {items2 : List Item} {e : List Elem} (h : substItems args fa inner p (.op :: items2) = .ok e) :
+    ∃ e2, e = .op :: e2 ∧ substItems args fa inner true items2 = .ok e2 := by
+  obtain ⟨e1, e2, rfl, hs, he1⟩ := substItems_cons_ok h (by intro c h; cases h)
+  simp only at he1
+  subst he1
+  exact ⟨e2, rfl, hs⟩
+
+theorem parse_nil {isFn : Bool} {args : List MacroArg} {k : Nat} {items : List Item}
+    (h : parseBody isFn args k [] = .ok items) : items = [] := by
+  cases k <;> simp [parseBody] at h <;> exact h
+
+/-- a placemarker on the left of `##`: the right operand is pushed as it is -/
+theorem pasteAll_pm_raw (lx : String → LexOne) (W : List Tok) (e3 done : List Elem) :
+    pasteAll lx (.op :: (rawOrPlacemarker W ++ e3)) (.pm :: done) = pasteAll lx e3 ((rawOrPlacemarker W).reverse ++ done) := by
+  cases W with
+  | nil => simp [rawOrPlacemarker, pasteAll, combine]
+  | cons w0 ws =>
+    simp only [rawOrPlacemarker, List.isEmpty_cons, Bool.false_eq_true, if_false, List.map_cons, List.cons_append]
+    rw [pasteAll_op_ok lx _ _ (x := .tok w0) (by simp [combine]), pasteAll_toks]
+    simp
+
+theorem dropPM_raw (W : List Tok) (done : List Elem) :
+    dropPlacemarkers ((rawOrPlacemarker W).reverse ++ done) = W.reverse ++ dropPlacemarkers done := by
+  cases W with
+  | nil => simp [rawOrPlacemarker, dropPlacemarkers]
+  | cons w0 ws =>
+    simp only [rawOrPlacemarker, List.isEmpty_cons, Bool.false_eq_true, if_false]
+    exact dropPM_push (w0 :: ws) done
+
+theorem pmTop_raw (W : List Tok) (done : List Elem) (h : PmTop ((rawOrPlacemarker W).reverse ++ done) = true) : W = [] := by
+  cases W with
+  | nil => rfl
+  | cons w0 ws =>
+    exfalso
+    simp only [rawOrPlacemarker, List.isEmpty_cons, Bool.false_eq_true, if_false, List.map_cons, List.reverse_cons,
+      List.append_assoc] at h
+    cases hr : (ws.map Elem.tok).reverse with
+    | nil => rw [hr] at h; simp [PmTop] at h
+    | cons y ys =>
+      rw [hr] at h
+      have : y ∈ (ws.map Elem.tok).reverse := by rw [hr]; simp
+      simp only [List.mem_reverse, List.mem_map] at this
+      obtain ⟨z, _, rfl⟩ := this
+      simp [PmTop] at h
+
+theorem pmTop_push_tok (ws : List Tok) (x : Tok) (d : List Elem) :
+    PmTop ((ws.map Elem.tok).reverse ++ Elem.tok x :: d) = false := by
+  cases hr : (ws.map Elem.tok).reverse with
+  | nil => simp [PmTop]
+  | cons y ys =>
+    have : y ∈ (ws.map Elem.tok).reverse := by rw [hr]; simp
+    simp only [List.mem_reverse, List.mem_map] at this
+    obtain ⟨z, _, rfl⟩ := this
+    simp [PmTop]
+
+theorem combine_op_left (lx : String → LexOne) (r : Elem) : ∃ e, combine lx .op r = .error e := by
+  cases r <;> exact ⟨_, rfl⟩
+
+theorem model_gnu_none {args args0 : List MacroArg} (hcore : args.map core = args0.map core) {tok : Tok} {rest : List Tok}
+    (hb : (tok.text == "," && textIs rest.head? "##" && ((findArg args0 (rest.drop 1).head?).filter (·.isVa)).isSome) = false) :
+    (if (tok.text == "," && textIs rest.head? "##") = true then
+        (findArg args (rest.drop 1).head?).filter (·.isVa) else none) = none := by
+  by_cases hc : (tok.text == "," && textIs rest.head? "##") = true
+  · simp only [hc, if_true]
+    simp only [hc, Bool.true_and] at hb
+    cases hf : findArg args (rest.drop 1).head? with
+    | none => rfl
+    | some a =>
+      obtain ⟨a0, hf0, _, hva, _⟩ := findArg_some_core hcore hf
+      rw [hf0] at hb
+      cases hv : a.isVa with
+      | false => simp [Option.filter, hv]
+      | true => simp [Option.filter, hva, hv] at hb
+  · simp [hc]
+
+set_option maxHeartbeats 400000 in
+theorem subst_sim (lx : String → LexOne) (full : List Tok → List Tok) (isObj : Bool) (args0 : List MacroArg)
+    (inner : List Tok → Except Err (List Tok)) :
+    ∀ (fuel : Nat) (st : St) (args : List MacroArg) (body acc : List Tok) (done : List Elem) (pf : Nat)
+      (items : List Item) (elems es : List Elem),
+      body.length < fuel → body.length < pf →
+      args.map core = args0.map core → CacheOK full args →
+      anyBad (!isObj) args0 body = false → hasPlacemarkerChain args0 body = false →
+      hasUnsafeStringize args0 body = false →
+      (PmTop done = true → textIs body.head? "##" = false) →
+      spell acc = spell (dropPlacemarkers done) →
+      parseBody (!isObj) args0 pf body = .ok items →
+      substItems args0 (fun a => full (argToks args0 a)) inner false items = .ok elems →
+      pasteAll lx elems done = .ok es →
+      ∃ out args' st', substLoop lx (purePP full) isObj fuel st args body acc = .ok (out, args', st') ∧
+        spell out = spell (dropPlacemarkers es) := by
+  intro fuel
+  induction fuel with
+  | zero => intro st args body acc done pf items elems es h; omega
+  | succ n ih =>
+    intro st args body acc done pf items elems es hfuel hpf hcore hcache hbad hchain hunsafe hpm hR hparse hsub hpaste
+    cases body with
+    | nil =>
+      cases pf with
+      | zero => simp at hpf
+      | succ pf' =>
+        simp only [parseBody, Except.ok.injEq] at hparse
+        subst hparse
+        simp only [substItems, Except.ok.injEq] at hsub
+        subst hsub
+        simp only [pasteAll, Except.ok.injEq] at hpaste
+        subst hpaste
+        refine ⟨acc.reverse, args, st, by simp [substLoop], ?_⟩
+        rw [spell_reverse, hR, dropPlacemarkers_reverse, spell_reverse]
+    | cons tok rest =>
+      obtain ⟨pf', rfl⟩ : ∃ k, pf = k + 1 := ⟨pf - 1, by simp only [List.length_cons] at hpf; omega⟩
+      obtain ⟨hbh, hbt⟩ := anyBad_tail hbad
+      have hct := chain_tail hchain
+      have hut := unsafe_tail hunsafe
+      simp only [List.length_cons] at hfuel hpf
+      rcases parse_step hbh hparse with
+        ⟨h1, hfn, p, rest', items', rfl, hip, rfl, hp'⟩ | ⟨h1, h2, items', rfl, hp'⟩ |
+        ⟨h1, h2, hip, items', rfl, hp'⟩ | ⟨h1, h2, hip, items', rfl, hp'⟩
+      · -- "#" parameter
+        obtain ⟨e1, e2, rfl, hsub', he1⟩ := substItems_cons_ok hsub (by intro c h; cases h)
+        simp only at he1
+        subst he1
+        have hsome : (findArg args0 (some p)).isSome = true := by rw [← isParam_iff]; exact hip
+        obtain ⟨a0, ha0⟩ := Option.isSome_iff_exists.1 hsome
+        obtain ⟨a, ha, _, _, htoks⟩ := findArg_of_core_symm hcore ha0
+        have hsafe : ∀ t ∈ a0.toks, strSafeTok t = true := by
+          simp only [hasUnsafeStringize, Bool.or_eq_false_iff] at hunsafe
+          have := hunsafe.1
+          simp only [h1, beq_self_eq_true, Bool.true_and, ha0, Bool.not_eq_false'] at this
+          exact List.all_eq_true.1 this
+        obtain ⟨hst, hsk⟩ := stringize_eq_spec tok a0.toks hsafe
+        have hpaste' : pasteAll lx e2 (.tok (stringizeSpec tok (argToks args0 p.text)) :: done) = .ok es := by
+          simpa [pasteAll] using hpaste
+        have hobj : isObj = false := by simpa using hfn
+        obtain ⟨hbh2, hbt2⟩ := anyBad_tail hbt
+        obtain ⟨out, args', st', hm, hs⟩ := ih st args rest' (stringize tok a.toks :: acc)
+          (.tok (stringizeSpec tok (argToks args0 p.text)) :: done) pf' items' e2 es
+          (by simp only [List.length_cons] at hfuel; omega) (by simp only [List.length_cons] at hpf; omega)
+          hcore hcache hbt2 (chain_tail hct) (unsafe_tail hut) (by simp [PmTop])
+          (by rw [spell_cons, dropPM_cons_tok, spell_cons, hR, argToks_of_findArg ha0, htoks]
+              simp [spell1, hst, hsk]) hp' hsub' hpaste'
+        refine ⟨out, args', st', ?_, hs⟩
+        unfold substLoop
+        simp only [h1, hobj, beq_self_eq_true, Bool.not_false, Bool.and_self, if_true, List.head?_cons, ha,
+          List.drop_succ_cons, List.drop_zero]
+        rw [hobj] at hm
+        exact hm
+      · -- "##"
+        obtain ⟨e2, rfl, hsub2⟩ := substItems_op_cons hsub
+        have hpmf : PmTop done = false := by
+          cases hpt : PmTop done with
+          | false => rfl
+          | true => have := hpm hpt; simp [textIs, h2] at this
+        have hh : (tok.text == "#" && !isObj) = false := by simp [h2]
+        have h2' : (tok.text == "##") = true := by simp [h2]
+        have hbh' := hbh
+        simp only [badHead, Bool.or_eq_false_iff] at hbh'
+        have hg := model_gnu_none hcore (tok := tok) (rest := rest) hbh'.1.1
+        -- the left operand: the newest element of `done` is a token spelled like `cur`
+        have hdone : ∀ (cur : Tok) (acc' : List Tok), acc = cur :: acc' →
+            ∃ lt done', done = Elem.tok lt :: done' ∧ spell1 lt = spell1 cur ∧ spell acc' = spell (dropPlacemarkers done') := by
+          intro cur acc' hacc
+          subst hacc
+          cases done with
+          | nil => simp [spell, dropPlacemarkers] at hR
+          | cons d done' =>
+            cases d with
+            | pm => simp [PmTop] at hpmf
+            | tok lt =>
+              rw [dropPM_cons_tok, spell_cons, spell_cons] at hR
+              simp only [List.cons.injEq] at hR
+              exact ⟨lt, done', rfl, hR.1.symm, hR.2⟩
+            | op =>
+              exfalso
+              cases e2 with
+              | nil => exact pasteAll_op_last lx _ _ hpaste
+              | cons r e2' =>
+                obtain ⟨e, he⟩ := combine_op_left lx r
+                rw [pasteAll_op_err lx _ _ he] at hpaste
+                cases hpaste
+        cases acc with
+        | nil =>
+          exfalso
+          cases done with
+          | nil => simp [pasteAll] at hpaste
+          | cons d done' =>
+            cases d with
+            | pm => simp [PmTop] at hpmf
+            | tok lt => simp [spell, dropPlacemarkers] at hR
+            | op =>
+              cases e2 with
+              | nil => exact pasteAll_op_last lx _ _ hpaste
+              | cons r e2' =>
+                obtain ⟨e, he⟩ := combine_op_left lx r
+                rw [pasteAll_op_err lx _ _ he] at hpaste
+                cases hpaste
+        | cons cur acc' =>
+          obtain ⟨lt, done', rfl, hlt, hR'⟩ := hdone cur acc' rfl
+          cases rest with
+          | nil =>
+            exfalso
+            rw [parse_nil hp'] at hsub2
+            simp only [substItems, Except.ok.injEq] at hsub2
+            subst hsub2
+            exact pasteAll_op_last lx _ _ hpaste
+          | cons nxt rest' =>
+            obtain ⟨k, rfl⟩ : ∃ k, pf' = k + 1 := ⟨pf' - 1, by simp only [List.length_cons] at hpf; omega⟩
+            obtain ⟨hbh2, hbt2⟩ := anyBad_tail hbt
+            obtain ⟨items3, e3, hp3, hsub3, hcase⟩ := rhs_step h2 hbh hbt hp' hsub2
+            have hmodel : ∀ (out : List Tok) (args' : List MacroArg) (st' : St),
+                (match findArg args (some nxt) with
+                  | some a =>
+                    match a.toks with
+                    | [] => substLoop lx (purePP full) isObj n st args rest' (cur :: acc')
+                    | t0 :: ts =>
+                      match paste lx cur t0 with
+                      | .error e => .error e
+                      | .ok p => substLoop lx (purePP full) isObj n st args rest' (ts.reverse ++ p :: acc')
+                  | none =>
+                    match paste lx cur nxt with
+                    | .error e => .error e
+                    | .ok p => substLoop lx (purePP full) isObj n st args rest' (p :: acc')) = .ok (out, args', st') →
+                substLoop lx (purePP full) isObj (n + 1) st args (tok :: nxt :: rest') (cur :: acc') = .ok (out, args', st') := by
+              intro out args' st' hm
+              unfold substLoop
+              simp only [hh, Bool.false_eq_true, if_false]
+              rw [hg]
+              simp only [h2', if_true]
+              exact hm
+            rcases hcase with ⟨a2_0, ha2_0, W, hW, hWnil, rfl⟩ | ⟨hnone, rfl⟩
+            · obtain ⟨a2, ha2, _, _, htoks2⟩ := findArg_of_core_symm hcore ha2_0
+              cases hWc : W with
+              | nil =>
+                have ha2e : a2.toks = [] := by rw [htoks2]; exact hWnil.1 hWc
+                rw [hWc] at hpaste
+                have hpaste2 : pasteAll lx e3 (Elem.tok lt :: done') = .ok es := by
+                  simpa [rawOrPlacemarker, pasteAll, combine] using hpaste
+                obtain ⟨out, args', st', hm, hs⟩ := ih st args rest' (cur :: acc') (Elem.tok lt :: done') k items3 e3 es
+                  (by simp only [List.length_cons] at hfuel; omega) (by simp only [List.length_cons] at hpf; omega)
+                  hcore hcache hbt2 (chain_tail hct) (unsafe_tail hut) (by simp [PmTop])
+                  (by rw [spell_cons, dropPM_cons_tok, spell_cons, hlt, hR']) hp3 hsub3 hpaste2
+                exact ⟨out, args', st', hmodel out args' st' (by rw [ha2]; simp only [ha2e]; exact hm), hs⟩
+              | cons w0 ws =>
+                obtain ⟨t0, ts, hts⟩ : ∃ t0 ts, a2.toks = t0 :: ts := by
+                  cases h : a2.toks with
+                  | nil => rw [htoks2] at h; have := hWnil.2 h; rw [hWc] at this; cases this
+                  | cons t0 ts => exact ⟨t0, ts, rfl⟩
+                have hsp : spell1 w0 = spell1 t0 ∧ spell ws = spell ts := by
+                  rw [hWc, ← htoks2, hts, spell_cons, spell_cons] at hW
+                  simpa using hW
+                rw [hWc] at hpaste
+                simp only [rawOrPlacemarker, List.isEmpty_cons, Bool.false_eq_true, if_false, List.map_cons,
+                  List.cons_append] at hpaste
+                cases hcomb : paste lx lt w0 with
+                | error e =>
+                  rw [pasteAll_op_err lx _ _ (by simp [combine, hcomb, Except.map] : combine lx (Elem.tok lt) (Elem.tok w0) = .error e)] at hpaste
+                  cases hpaste
+                | ok x =>
+                  rw [pasteAll_op_ok lx _ _ (by simp [combine, hcomb, Except.map] : combine lx (Elem.tok lt) (Elem.tok w0) = .ok (Elem.tok x)),
+                    pasteAll_toks] at hpaste
+                  obtain ⟨p', hp'ok, hp'sp⟩ := paste_congr2 lx hlt (by simpa [spell1] using congrArg Prod.snd hsp.1) x hcomb
+                  obtain ⟨out, args', st', hm, hs⟩ := ih st args rest' (ts.reverse ++ p' :: acc')
+                    ((ws.map Elem.tok).reverse ++ Elem.tok x :: done') k items3 e3 es
+                    (by simp only [List.length_cons] at hfuel; omega) (by simp only [List.length_cons] at hpf; omega)
+                    hcore hcache hbt2 (chain_tail hct) (unsafe_tail hut)
+                    (by rw [pmTop_push_tok]; intro h; cases h)
+                    (by rw [spell_append, spell_reverse, spell_cons, dropPM_push, dropPM_cons_tok, spell_append,
+                          spell_reverse, spell_cons, hsp.2, hp'sp, hR']) hp3 hsub3 hpaste
+                  exact ⟨out, args', st', hmodel out args' st' (by rw [ha2]; simp only [hts, hp'ok]; exact hm), hs⟩
+            · have hnone' : findArg args (some nxt) = none := findArg_none_core hcore.symm hnone
+              simp only [List.singleton_append] at hpaste
+              cases hcomb : paste lx lt nxt with
+              | error e =>
+                rw [pasteAll_op_err lx _ _ (by simp [combine, hcomb, Except.map] : combine lx (Elem.tok lt) (Elem.tok nxt) = .error e)] at hpaste
+                cases hpaste
+              | ok x =>
+                rw [pasteAll_op_ok lx _ _ (by simp [combine, hcomb, Except.map] : combine lx (Elem.tok lt) (Elem.tok nxt) = .ok (Elem.tok x))] at hpaste
+                obtain ⟨p', hp'ok, hp'sp⟩ := paste_congr2 lx hlt rfl x hcomb
+                obtain ⟨out, args', st', hm, hs⟩ := ih st args rest' (p' :: acc') (Elem.tok x :: done') k items3 e3 es
+                  (by simp only [List.length_cons] at hfuel; omega) (by simp only [List.length_cons] at hpf; omega)
+                  hcore hcache hbt2 (chain_tail hct) (unsafe_tail hut) (by simp [PmTop])
+                  (by rw [spell_cons, dropPM_cons_tok, spell_cons, hp'sp, hR']) hp3 hsub3 hpaste
+                exact ⟨out, args', st', hmodel out args' st' (by rw [hnone']; simp only [hp'ok]; exact hm), hs⟩
+      · -- parameter
+        obtain ⟨e1, e2, rfl, hsub', he1⟩ := substItems_cons_ok hsub (by intro c h; cases h)
+        simp only [Bool.false_or] at he1
+        have hsome : (findArg args0 (some tok)).isSome = true := by rw [← isParam_iff]; exact hip
+        obtain ⟨a0, ha0⟩ := Option.isSome_iff_exists.1 hsome
+        obtain ⟨a, ha, hname, _, htoks⟩ := findArg_of_core_symm hcore ha0
+        have hnext := parse_head_isOp (n := pf') (by omega : rest.length < pf') hbt hp'
+        rw [hnext, argToks_of_findArg ha0] at he1
+        simp only [badHead, Bool.or_eq_false_iff] at hbh
+        have hh : (tok.text == "#" && !isObj) = false := by
+          cases hc : (tok.text == "#" && !isObj) with
+          | false => rfl
+          | true => simp only [Bool.and_eq_true, beq_iff_eq] at hc; exact absurd ⟨hc.1, by simpa using hc.2⟩ h1
+        have h2' : (tok.text == "##") = false := by simpa using h2
+        have hg := model_gnu_none hcore (tok := tok) (rest := rest) hbh.1.1
+        by_cases hnx : textIs rest.head? "##" = true
+        · -- followed by "##": the argument is copied without macro replacement
+          simp only [hnx, if_true] at he1
+          cases htk : a0.toks with
+          | cons t0 ts =>
+            -- non-empty: copy it and go on at the "##"
+            have hw : withSpacingOf tok a0.toks ≠ [] := by
+              intro hnil; rw [withSpacingOf_nil_iff, htk] at hnil; cases hnil
+            have he1' : e1 = (withSpacingOf tok a0.toks).map Elem.tok := by
+              rw [he1, rawOrPlacemarker]
+              cases hw' : withSpacingOf tok a0.toks with
+              | nil => exact absurd hw' hw
+              | cons x xs => simp
+            subst he1'
+            rw [pasteAll_toks] at hpaste
+            have hpmf : PmTop (((withSpacingOf tok a0.toks).map Elem.tok).reverse ++ done) = false := by
+              cases hw' : withSpacingOf tok a0.toks with
+              | nil => exact absurd hw' hw
+              | cons x xs =>
+                simp only [List.map_cons, List.reverse_cons, List.append_assoc]
+                cases hr : (xs.map Elem.tok).reverse with
+                | nil => simp [PmTop]
+                | cons y ys =>
+                  have : y ∈ (xs.map Elem.tok).reverse := by rw [hr]; simp
+                  simp only [List.mem_reverse, List.mem_map] at this
+                  obtain ⟨z, _, rfl⟩ := this
+                  simp [PmTop]
+            obtain ⟨out, args', st', hm, hs⟩ := ih st args rest
+              ((setHeadFlags a.toks tok.atBol tok.hasSpace).reverse ++ acc)
+              (((withSpacingOf tok a0.toks).map Elem.tok).reverse ++ done) pf' items' e2 es
+              (by omega) (by omega) hcore hcache hbt hct hut (by rw [hpmf]; intro h; cases h)
+              (by rw [spell_append, spell_reverse, spell_setHeadFlags, dropPM_push, spell_append, spell_reverse,
+                    spell_withSpacingOf, hR, htoks]) hp' hsub' hpaste
+            refine ⟨out, args', st', ?_, hs⟩
+            unfold substLoop
+            simp only [hh, Bool.false_eq_true, if_false]
+            rw [hg]
+            simp only [h2', Bool.false_eq_true, if_false, ha, hnx, if_true]
+            cases rest with
+            | nil => simp [textIs] at hnx
+            | cons hh2 rest2 =>
+              cases rest2 with
+              | nil =>
+                -- "##" is the last token: the specification fails too
+                exfalso
+                have hhh : hh2.text = "##" := by simpa [textIs] using hnx
+                obtain ⟨k, rfl⟩ : ∃ k, pf' = k + 1 := ⟨pf' - 1, by simp only [List.length_cons] at hpf; omega⟩
+                obtain ⟨items2, rfl, hp2⟩ := parse_op_cons hhh (anyBad_tail hbt).1 hp'
+                obtain ⟨e2', rfl, hsub2⟩ := substItems_op_cons hsub'
+                rw [parse_nil hp2] at hsub2
+                simp only [substItems, Except.ok.injEq] at hsub2
+                subst hsub2
+                exact pasteAll_op_last lx _ _ hpaste
+              | cons rhs rest3 =>
+                simp only [List.drop_succ_cons, List.drop_zero]
+                rw [htoks, htk]
+                simp only
+                rw [← htk, ← htoks]
+                exact hm
+          | nil =>
+            -- empty: 6.10.3.3 puts a placemarker; chibicc copies the right operand of the "##" instead
+            rw [htk] at he1
+            have he1' : e1 = [Elem.pm] := by rw [he1]; simp [withSpacingOf, setHeadFlags, rawOrPlacemarker]
+            subst he1'
+            cases rest with
+            | nil => simp [textIs] at hnx
+            | cons hh2 rest2 =>
+              have hhh : hh2.text = "##" := by simpa [textIs] using hnx
+              obtain ⟨k, rfl⟩ : ∃ k, pf' = k + 1 := ⟨pf' - 1, by simp only [List.length_cons] at hpf; omega⟩
+              obtain ⟨items2, rfl, hp2⟩ := parse_op_cons hhh (anyBad_tail hbt).1 hp'
+              obtain ⟨e2', rfl, hsub2⟩ := substItems_op_cons hsub'
+              have hpaste1 : pasteAll lx (Elem.op :: e2') (Elem.pm :: done) = .ok es := by
+                simpa [pasteAll] using hpaste
+              cases rest2 with
+              | nil =>
+                exfalso
+                rw [parse_nil hp2] at hsub2
+                simp only [substItems, Except.ok.injEq] at hsub2
+                subst hsub2
+                exact pasteAll_op_last lx _ _ hpaste1
+              | cons rhs rest3 =>
+                obtain ⟨k', rfl⟩ : ∃ k', k = k' + 1 := ⟨k - 1, by simp only [List.length_cons] at hpf; omega⟩
+                obtain ⟨hbh2, hbt2⟩ := anyBad_tail hbt
+                obtain ⟨hbh3, hbt3⟩ := anyBad_tail hbt2
+                obtain ⟨items3, e3, hp3, hsub3, hcase⟩ := rhs_step hhh hbh2 hbt2 hp2 hsub2
+                have hmodel : ∀ (acc' : List Tok) (out : List Tok) (args' : List MacroArg) (st' : St),
+                    (match findArg args (some rhs) with
+                      | some a2 => substLoop lx (purePP full) isObj n st args rest3 (a2.toks.reverse ++ acc)
+                      | none => substLoop lx (purePP full) isObj n st args rest3 (rhs :: acc)) = .ok (out, args', st') →
+                    substLoop lx (purePP full) isObj (n + 1) st args (tok :: hh2 :: rhs :: rest3) acc = .ok (out, args', st') := by
+                  intro _ out args' st' hm
+                  unfold substLoop
+                  simp only [hh, Bool.false_eq_true, if_false]
+                  rw [hg]
+                  simp only [h2', Bool.false_eq_true, if_false, ha, hnx, if_true, List.drop_succ_cons, List.drop_zero]
+                  rw [htoks, htk]
+                  exact hm
+                rcases hcase with ⟨a2_0, ha2_0, W, hW, hWnil, rfl⟩ | ⟨hnone, rfl⟩
+                · obtain ⟨a2, ha2, _, _, htoks2⟩ := findArg_of_core_symm hcore ha2_0
+                  rw [pasteAll_pm_raw] at hpaste1
+                  obtain ⟨out, args', st', hm, hs⟩ := ih st args rest3 (a2.toks.reverse ++ acc)
+                    ((rawOrPlacemarker W).reverse ++ done) k' items3 e3 es
+                    (by simp only [List.length_cons] at hfuel; omega) (by simp only [List.length_cons] at hpf; omega)
+                    hcore hcache hbt3 (chain_tail (chain_tail hct)) (unsafe_tail (unsafe_tail hut))
+                    (by
+                      intro hpt
+                      have hWe := pmTop_raw W done hpt
+                      have ha2e : a2_0.toks = [] := hWnil.1 hWe
+                      -- `tok ## rhs ##` with both arguments empty is excluded
+                      cases rest3 with
+                      | nil => simp [textIs]
+                      | cons h3 r4 =>
+                        simp only [hasPlacemarkerChain, Bool.or_eq_false_iff] at hchain
+                        have := hchain.1
+                        simp only [emptyParam, ha0, htk, ha2_0, ha2e, List.isEmpty_nil, hhh, beq_self_eq_true,
+                          Bool.true_and] at this
+                        simpa [textIs] using this)
+                    (by rw [spell_append, spell_reverse, dropPM_raw, spell_append, spell_reverse, hW, hR, htoks2])
+                    hp3 hsub3 hpaste1
+                  exact ⟨out, args', st', hmodel acc out args' st' (by rw [ha2]; exact hm), hs⟩
+                · have hnone' : findArg args (some rhs) = none := findArg_none_core hcore.symm hnone
+                  have hpaste2 : pasteAll lx e3 (Elem.tok rhs :: done) = .ok es := by
+                    simpa [pasteAll, combine] using hpaste1
+                  obtain ⟨out, args', st', hm, hs⟩ := ih st args rest3 (rhs :: acc) (Elem.tok rhs :: done) k' items3 e3 es
+                    (by simp only [List.length_cons] at hfuel; omega) (by simp only [List.length_cons] at hpf; omega)
+                    hcore hcache hbt3 (chain_tail (chain_tail hct)) (unsafe_tail (unsafe_tail hut))
+                    (by simp [PmTop]) (by rw [spell_cons, dropPM_cons_tok, spell_cons, hR]) hp3 hsub3 hpaste2
+                  exact ⟨out, args', st', hmodel acc out args' st' (by rw [hnone']; exact hm), hs⟩
+        · -- plain parameter: the completely macro-replaced argument
+          have hnx' : textIs rest.head? "##" = false := by simpa using hnx
+          simp only [hnx', Bool.false_eq_true, if_false] at he1
+          subst he1
+          rw [pasteAll_toks] at hpaste
+          have hR' : spell ((setHeadFlags (full a.toks) tok.atBol tok.hasSpace).reverse ++ acc) =
+              spell (dropPlacemarkers (((withSpacingOf tok (full a0.toks)).map Elem.tok).reverse ++ done)) := by
+            rw [spell_append, spell_reverse, spell_setHeadFlags, dropPM_push, spell_append, spell_reverse,
+              spell_withSpacingOf, hR, htoks]
+          have hmem := findArg_mem ha
+          rcases hcache a hmem with hex | hex
+          · -- first use: expand a copy
+            obtain ⟨out, args', st', hm, hs⟩ := ih st (setExpanded args a.name (full a.toks)) rest
+              ((setHeadFlags (full a.toks) tok.atBol tok.hasSpace).reverse ++ acc)
+              (((withSpacingOf tok (full a0.toks)).map Elem.tok).reverse ++ done) pf' items' e2 es
+              (by omega) (by omega) (by rw [setExpanded_core]; exact hcore) (cacheOK_setExpanded hcache ha)
+              hbt hct hut (fun _ => hnx') hR' hp' hsub' hpaste
+            refine ⟨out, args', st', ?_, hs⟩
+            unfold substLoop
+            simp only [hh, Bool.false_eq_true, if_false]
+            rw [hg]
+            simp only [h2', Bool.false_eq_true, if_false, ha, hnx', hex, purePP, addHideset_nil]
+            exact hm
+          · obtain ⟨out, args', st', hm, hs⟩ := ih st args rest
+              ((setHeadFlags (full a.toks) tok.atBol tok.hasSpace).reverse ++ acc)
+              (((withSpacingOf tok (full a0.toks)).map Elem.tok).reverse ++ done) pf' items' e2 es
+              (by omega) (by omega) hcore hcache hbt hct hut (fun _ => hnx') hR' hp' hsub' hpaste
+            refine ⟨out, args', st', ?_, hs⟩
+            unfold substLoop
+            simp only [hh, Bool.false_eq_true, if_false]
+            rw [hg]
+            simp only [h2', Bool.false_eq_true, if_false, ha, hnx', hex]
+            exact hm
+      · -- any other token
+        obtain ⟨e1, e2, rfl, hsub', he1⟩ := substItems_cons_ok hsub (by intro c h; cases h)
+        simp only at he1
+        subst he1
+        have hfa : findArg args (some tok) = none := by
+          have : findArg args0 (some tok) = none := by
+            have := isParam_iff args0 tok
+            rw [hip] at this
+            cases h : findArg args0 (some tok) with
+            | none => rfl
+            | some a => rw [h] at this; simp at this
+          exact findArg_none_core hcore.symm this
+        have hpaste' : pasteAll lx e2 (.tok tok :: done) = .ok es := by simpa [pasteAll] using hpaste
+        simp only [badHead, Bool.or_eq_false_iff] at hbh
+        have hh : (tok.text == "#" && !isObj) = false := by
+          cases hc : (tok.text == "#" && !isObj) with
+          | false => rfl
+          | true => simp only [Bool.and_eq_true, beq_iff_eq] at hc; exact absurd ⟨hc.1, by simpa using hc.2⟩ h1
+        have h2' : (tok.text == "##") = false := by simpa using h2
+        obtain ⟨out, args', st', hm, hs⟩ := ih st args rest (tok :: acc) (.tok tok :: done) pf' items' e2 es
+          (by omega) (by omega) hcore hcache hbt hct hut (by simp [PmTop])
+          (by rw [spell_cons, dropPM_cons_tok, spell_cons, hR]) hp' hsub' hpaste'
+        refine ⟨out, args', st', ?_, hs⟩
+        unfold substLoop
+        simp only [hh, Bool.false_eq_true, if_false, hbh.1.1, h2', hfa, hbh.1.2]
+        have hg := model_gnu_none hcore (tok := tok) (rest := rest) hbh.1.1
+        rw [hg]
+        exact hm
+end ChibiVerif.PP
+
+namespace ChibiVerif.PP
+open ChibiVerif.Spec.PPSpec
+
+/-- the arguments come straight from `read_macro_args`: nothing is cached yet -/
+def FreshArgs (args : List MacroArg) : Prop := ∀ a ∈ args, a.expanded = none
+
+instance (args : List MacroArg) : Decidable (FreshArgs args) := by unfold FreshArgs; infer_instance
+
+/-- outside C11 6.10.3 proper or unspecified by it: GNU `, ## __VA_ARGS__`, C2x `__VA_OPT__ (`, a `##` whose right
+    operand is `##`, and `## #` in a function-like macro (6.10.3.2p2: order of evaluation of `#` and `##`) -/
+def NoExtension (body : List Tok) (args : List MacroArg) : Prop := anyBad true args body = false
+
+instance (body : List Tok) (args : List MacroArg) : Decidable (NoExtension body args) := by
+  unfold NoExtension; infer_instance
+
+/-- `subst` (function-like macro, pure pre-expander) produces the spellings of `Spec.subst` whenever the
+    specification defines them, inside the region -/
+theorem subst_spec_of_region (lx : String → LexOne) (full : List Tok → List Tok) (body : List Tok) (args : List MacroArg)
+    (s : List Tok) (hpm : NoPlacemarkerChain body args) (hbs : StringizeLiteralSafe body args)
+    (hext : NoExtension body args) (hfresh : FreshArgs args)
+    (hspec : ChibiVerif.Spec.PPSpec.subst lx full true body args = .ok s) :
+    ∃ m st', subst lx (purePP full) {} body args false = .ok (m, st') ∧ spell m = spell s := by
+  unfold ChibiVerif.Spec.PPSpec.subst substPhases at hspec
+  split at hspec
+  · simp at hspec
+  · rename_i items hparse
+    split at hspec
+    · simp at hspec
+    · simp only [Except.map] at hspec
+      split at hspec
+      · simp at hspec
+      · rename_i elems hsub
+        split at hspec
+        · simp at hspec
+        · rename_i es hpaste
+          simp only [Except.ok.injEq] at hspec
+          subst hspec
+          obtain ⟨out, args', st', hm, hs⟩ := subst_sim lx full false args _ (body.length + 1) {} args body [] []
+            (body.length + 1) items elems es (by omega) (by omega) rfl
+            (fun a ha => Or.inl (hfresh a ha)) hext hpm hbs (by simp [PmTop]) (by simp [spell, dropPlacemarkers])
+            hparse hsub hpaste
+          refine ⟨out, st', ?_, hs⟩
+          simp [subst, hm, Except.map]
+
+end ChibiVerif.PP
